@@ -221,7 +221,7 @@ def rand_run(rng, fmt, kind, *, calls=None, iters=None, value_classes=None, dist
         classes.append('extreme_canonical_numbers')
         if rng.random() < 0.5:
             # the largest raw outputs of the engine: x / 2^64 rounds to 1 in the numeric type and must be mapped back below 1
-            tops = [2 ** 64 - 1, 2 ** 64 - 2, 2 ** 64 - 2 ** max(0, 63 - fmt.prec), 2 ** 64 - 2 ** max(0, 64 - fmt.prec) + 1]
+            tops = [min(2 ** 64 - 1, x) for x in (2 ** 64 - 1, 2 ** 64 - 2, 2 ** 64 - 2 ** max(0, 63 - fmt.prec), 2 ** 64 - 2 ** max(0, 64 - fmt.prec) + 1)]
             for _ in range(rng.randint(1, 4)): raw.insert(rng.randrange(len(raw) + 1), rng.choice(tops))
             classes.append('top_raw_engine_outputs')
     s = spec_run(kind, fmt, dims=dims, channels=channels, seed=seed, raw=raw, chk=chk, f=f, dists=dl, fills=fills, tables=tables,
